@@ -61,6 +61,57 @@ func init() {
 		i, o, _ := protoRoundtrip(parseTy(a[0]), a[1])
 		return i, o, ""
 	}
+	// proto.hist <type> <val1> <val2>: history. Corrupted encodings of val1 are decoded first (errors expected and ignored),
+	// then val2 makes the ordinary round trip: a failed decode must leave nothing behind (pooled scratch, caches)
+	ops["proto.hist"] = func(a []string) (string, string, string) {
+		t := parseTy(a[0])
+		v1 := parseVal(t, a[1])
+		if b1, err := proto.Marshal(v1.Interface()); err == nil && len(b1) > 0 {
+			for k := 1; k <= 24 && k <= len(b1); k++ {
+				c := append([]byte{}, b1...)
+				c[len(c)-k] |= 0x80 // the k-th byte from the end becomes a varint continuation / an oversized length
+				proto.Unmarshal(c, reflect.New(t.Reflect()).Interface())
+				c = append(append([]byte{}, b1[:len(b1)-k]...), 0xff) // cut inside the last fields, then an unterminated varint
+				proto.Unmarshal(c, reflect.New(t.Reflect()).Interface())
+			}
+			// a well-framed message whose LAST length-delimited field (at nesting depth d) ends in a truncated unknown field:
+			// the failure comes after everything before it has been decoded (e.g. after the key and the value of a map entry)
+			for _, at := range []int{0, 1} {
+				for d := 1; d <= 4; d++ {
+					if c, ok := poisonAt(b1, d, at); ok {
+						proto.Unmarshal(c, reflect.New(t.Reflect()).Interface())
+					}
+				}
+			}
+		}
+		i, o, _ := protoRoundtrip(t, a[2])
+		return i, o, ""
+	}
+	// proto.bytearr <N> <L>: L bytes arrive for a [N]byte field that has neighbours; whatever the outcome, the neighbours
+	// (not in the input) keep their zero values and nothing is written beyond the array
+	ops["proto.bytearr"] = func(a []string) (string, string, string) {
+		n, l := atoi(a[0]), atoi(a[1])
+		t := reflect.StructOf([]reflect.StructField{
+			{Name: "G0", Type: reflect.TypeOf(uint64(0)), Tag: `protobuf:"varint,2,opt"`},
+			{Name: "A", Type: reflect.ArrayOf(n, reflect.TypeOf(byte(0))), Tag: `protobuf:"bytes,1,opt"`},
+			{Name: "G1", Type: reflect.TypeOf(uint64(0)), Tag: `protobuf:"varint,3,opt"`},
+			{Name: "S", Type: reflect.TypeOf(""), Tag: `protobuf:"bytes,4,opt"`},
+			{Name: "B", Type: reflect.ArrayOf(8, reflect.TypeOf(byte(0))), Tag: `protobuf:"bytes,5,opt"`},
+		})
+		in := []byte{0x0a, byte(l)}
+		for k := 0; k < l; k++ {
+			in = append(in, byte(0xe0+k%16))
+		}
+		tgt := reflect.New(t)
+		err := proto.Unmarshal(in, tgt.Interface())
+		e := tgt.Elem()
+		st := "ok"
+		if err != nil {
+			st = "err"
+		}
+		return fmt.Sprintf("%s;g0=%d;g1=%d;s=%q;b=%x", st, e.Field(0).Uint(), e.Field(2).Uint(), e.Field(3).String(), e.Field(4).Slice(0, 8).Bytes()),
+			st + `;g0=0;g1=0;s="";b=0000000000000000`, ""
+	}
 	ops["proto.decode"] = func(a []string) (string, string, string) {
 		t := parseTy(a[0])
 		o := "-"
@@ -445,6 +496,21 @@ func runC03(h *H) {
 		}
 		wire := unhx(p[1])
 		h.DoRisky("proto.roundtrip", ts, val, p[1])
+		if i%3 == 1 {
+			// … and the same value with every scalar leaf zeroed (same map keys, same lengths): zero fields are elided on the
+			// wire, so whatever a failed decode of `val` left behind shows through
+			h.DoRisky("proto.hist", ts, val, showVal(t, zeroLeaves(v), false))
+		}
+		if i%3 == 0 {
+			// the same type, another value, after failed decodes of this one
+			v2 := h.genVal(t, 0)
+			if t.K == "ptr" && v2.IsNil() {
+				v2.Set(reflect.New(t.Elem.Reflect()))
+			}
+			if !(hasMultiMap(t, v2) && nilPtrInCollection(v2)) {
+				h.DoRisky("proto.hist", ts, val, showVal(t, v2, false))
+			}
+		}
 		if op == "proto.marshal" {
 			// determinism: a second Marshal of a map-free value gives the same bytes
 			im2, _, _ := h.w.run(op, []string{ts, val})
@@ -1007,6 +1073,11 @@ func (h *H) genUnknownRecord(t *Ty, depth int) []byte {
 
 func runC07(h *H) {
 	h.protoPrimitives()
+	for n := 0; n <= 9; n++ {
+		for l := 0; l <= n+12; l++ {
+			h.DoRisky("proto.bytearr", strconv.Itoa(n), strconv.Itoa(l))
+		}
+	}
 	N := 500
 	if h.Thorough() {
 		N = 8000
@@ -1091,4 +1162,88 @@ func runC07(h *H) {
 		h.DoRisky("proto.alloc", ts, hx(b))
 		h.Do("proto.scan", hx(b))
 	}
+}
+
+// zeroLeaves copies v with every scalar leaf set to its zero value; containers keep their shape (map keys, lengths,
+// non-nil pointers).
+func zeroLeaves(v reflect.Value) reflect.Value {
+	out := reflect.New(v.Type()).Elem()
+	switch v.Kind() {
+	case reflect.Struct:
+		for i := 0; i < v.NumField(); i++ {
+			if out.Field(i).CanSet() {
+				out.Field(i).Set(zeroLeaves(v.Field(i)))
+			}
+		}
+	case reflect.Map:
+		if !v.IsNil() {
+			out.Set(reflect.MakeMapWithSize(v.Type(), v.Len()))
+			it := v.MapRange()
+			for it.Next() {
+				out.SetMapIndex(it.Key(), zeroLeaves(it.Value()))
+			}
+		}
+	case reflect.Slice:
+		if !v.IsNil() {
+			out.Set(reflect.MakeSlice(v.Type(), v.Len(), v.Len()))
+			if v.Type().Elem().Kind() != reflect.Uint8 {
+				for i := 0; i < v.Len(); i++ {
+					out.Index(i).Set(zeroLeaves(v.Index(i)))
+				}
+			}
+		}
+	case reflect.Array:
+		if v.Type().Elem().Kind() != reflect.Uint8 {
+			for i := 0; i < v.Len(); i++ {
+				out.Index(i).Set(zeroLeaves(v.Index(i)))
+			}
+		}
+	case reflect.Ptr:
+		if !v.IsNil() {
+			p := reflect.New(v.Type().Elem())
+			p.Elem().Set(zeroLeaves(v.Elem()))
+			out.Set(p)
+		}
+	}
+	return out
+}
+
+// poisonAt appends a truncated field (number 127, varint, no terminating byte) to the payload of a length-delimited field
+// `depth` levels down — following the last (at = 0) or the first (at = 1) length-delimited record of each level — and
+// re-frames the enclosing lengths.
+func poisonAt(b []byte, depth, at int) ([]byte, bool) {
+	recs, ok := wireParse(b)
+	if !ok {
+		return nil, false
+	}
+	idx := -1
+	for i, r := range recs {
+		if r.wt == 2 {
+			idx = i
+			if at == 1 {
+				break
+			}
+		}
+	}
+	if idx < 0 {
+		return nil, false
+	}
+	var payload []byte
+	if depth <= 1 {
+		payload = append(append([]byte{}, recs[idx].val...), 0xf8, 0x07, 0x80)
+	} else {
+		p, ok := poisonAt(recs[idx].val, depth-1, at)
+		if !ok {
+			return nil, false
+		}
+		payload = p
+	}
+	var out []byte
+	for i, r := range recs {
+		if i == idx {
+			r = wrec{num: r.num, wt: 2, val: payload}
+		}
+		out = append(out, encRec(r)...)
+	}
+	return out, true
 }
